@@ -39,7 +39,7 @@ def sig_resp(rec):
                                          case.get("min_length"), case.get("filter"), case.get("path"))
 
 
-NEGOTIATE_COMPONENTS = ["mismatch:C05+C20", "mismatch:C13", "monitor:C05+C20+C09", "monitor:C13"]
+NEGOTIATE_COMPONENTS = ["mismatch:C05+C20", "mismatch:C13", "monitor:C05+C20+C09+C08", "monitor:C13"]
 
 RESP_TRUST = [
     "model coq/Model/Resp.v is hand-written from cache/http_response.go (NewHTTPResponse, shouldCompressed, GetRawBody, Compress, getBodyByAcceptEncoding, Fill) and Cacheable's pre-compress; tied by the negotiate family",
@@ -88,6 +88,8 @@ def sig_edge(rec):
 
 
 def sig_flight(rec):
+    if rec.get("family") == "negotiate":
+        return sig_resp(rec)
     if rec.get("family") == "edge":
         return sig_edge(rec)
     if rec.get("family") == "maxage":
@@ -245,7 +247,9 @@ PROPS = {
                      "restarts are exercised in-process at quiescent points (fresh dispatcher on the same store)"],
                     "provenance invariant with Crash anywhere in the label sequence; restored hit = original response, original creation time, within original expiry.", with_stress=True,
                     # many near-identical keys on a small store-backed dispatcher: what is rebuilt from the store is the key's own record
-                    extra={"keys": {"quick": 30, "thorough": 300, "search": 60}}),
+                    extra={"keys": {"quick": 30, "thorough": 300, "search": 60},
+                           # entries restored from their record are served under every Accept-Encoding
+                           "negotiate": {"quick": 150, "thorough": 4000, "search": 1500, "components": NEGOTIATE_COMPONENTS}}),
     "C10": sys_prop(["store calls return (possibly with an error): a call that never returns is a hang of the store client, not modelled"],
                     "C01/C02 theorems hold for all store choices; no immortal/empty hit; bad record = miss; memory hits need no store."),
     "C18": sys_prop(["a purge issued while a fetch is in flight does not cancel it: its result may be stored afterwards (stated caveat)"],
